@@ -714,9 +714,18 @@ def run_scenario(sc: dict, shared: Optional[dict] = None) -> dict:
             if sc.get("trigger_after"):
                 rec.late("trigger_wait_for_application", rec.wait_counts(dict(sc["trigger_after"]), 2.0, stop), want=sc["trigger_after"])
             if not stop.is_set():
-                rec.mark_trigger()
-                rec.add("trigger")
+                fired["t"] = rec.now()
+                rec.add("trigger_fired")
                 fire.set()
+
+    fired: Dict[str, float] = {}
+
+    def trigger_returns() -> None:
+        """`shutdown_trigger()` returns: THE instant shutdown is triggered (event `trigger`).  The harness thread only lets it;
+        on a busy machine the worker's loop may get to run noticeably later (recorded as harness lateness)."""
+        rec.late("trigger_noticed", rec.now() - fired.get("t", rec.now()))
+        rec.mark_trigger()
+        rec.add("trigger")
 
     clients = [CLIENTS[c["kind"]](rec, port, c, stop) for c in sc.get("clients", [])]
     for c in clients:
@@ -731,6 +740,7 @@ def run_scenario(sc: dict, shared: Optional[dict] = None) -> dict:
         async def trigger() -> None:
             while not fire.is_set():
                 await asyncio.sleep(0.005)
+            trigger_returns()
 
         async def main() -> None:
             rec.t0 = time.monotonic()
@@ -781,6 +791,7 @@ def run_scenario(sc: dict, shared: Optional[dict] = None) -> dict:
         async def ttrigger() -> None:
             while not fire.is_set():
                 await trio.sleep(0.005)
+            trigger_returns()
 
         async def tmain() -> None:
             rec.t0 = time.monotonic()
@@ -1076,16 +1087,30 @@ def probe_flags() -> Dict[str, dict]:
     # does a cancelled handler with an HTTP/2 stream in progress ever finish on asyncio?  Only observable when the
     # previous flag is false (otherwise worker_serve never gets as far as cancelling anything): then measured, else
     # the value read off the code (`finally: await send(None)` -> 500 response -> `drain()` on a cancelled send task)
+    # ... and what does the peer of such a handler see when it is cancelled: GOAWAY (the cancelled handler still closes its
+    # stream, and the connection, idle after termination, says so) or nothing?  Both workers.
+    def cancel_probe(worker: str) -> dict:
+        return {"worker": worker, "lifespan": ["recv", "startup_complete", "recv", "shutdown_complete", "return"],
+                "config": {"startup_timeout": 0.4, "shutdown_timeout": 0.3, "graceful_timeout": 0.2},
+                "clients": [{"id": 0, "kind": "h2", "steps": [["at", 0.05], ["connect"], ["stream", "/hang/0"], ["wait_close", 1.6]]}],
+                "trigger_at": 0.35, "trigger_after": {"scope": 1}, "observe_until": 1.5, "client_grace": 0.1,
+                "start_when_listening": True}
+
+    def said_goaway(o: dict) -> bool:
+        return any(e[2] == "client" and e[3]["what"] == "h2_goaway" for e in o["events"])
+
     if flags["asyncio"]["waitClosedBlocksOnConnections"]:
+        (o5,) = run_many([cancel_probe("trio")], procs=1)
         flags["asyncio"]["h2CancelDeadlocks"] = True
         flags["asyncio"]["h2CancelDeadlocks_measured"] = False
+        flags["asyncio"]["h2CancelSaysGoaway"] = False
     else:
-        (o4,) = run_many([{"worker": "asyncio", "lifespan": ["recv", "startup_complete", "recv", "shutdown_complete", "return"],
-                           "config": {"startup_timeout": 0.4, "shutdown_timeout": 0.3, "graceful_timeout": 0.2},
-                           "clients": [{"id": 0, "kind": "h2", "steps": [["at", 0.05], ["connect"], ["stream", "/hang/0"], ["wait_close", 1.6]]}],
-                           "trigger_at": 0.35, "observe_until": 1.5, "client_grace": 0.1, "start_when_listening": True}], procs=1)
+        o4, o5 = run_many([cancel_probe("asyncio"), cancel_probe("trio")], procs=2)
         flags["asyncio"]["h2CancelDeadlocks"] = o4["serve"]["outcome"] == "stuck"
         flags["asyncio"]["h2CancelDeadlocks_measured"] = True
+        flags["asyncio"]["h2CancelSaysGoaway"] = said_goaway(o4)
+    flags["trio"]["h2CancelDeadlocks"] = o5["serve"]["outcome"] == "stuck"
+    flags["trio"]["h2CancelSaysGoaway"] = said_goaway(o5)
     flags["asyncio"]["endCancelRaises"] = o1["serve"]["outcome"] == "raise" and "CancelledError" in o1["serve"].get("classes", [])
     closed = [e[1] for e in o2["events"] if e[2] == "client" and e[3]["what"] in ("eof", "close_wait") and e[3].get("closed", True)]
     fresh = bool(closed) and min(closed) <= 0.3 + 0.25
@@ -1215,6 +1240,11 @@ def model_view(m: dict) -> dict:
                 p["refused_streams"] += 1
             elif e[0] == "stream_done":
                 p["streams_done"] += 1
+            elif e[0] == "goaway":
+                p["said_goaway"] = True
+                p["fate"], p["fate_t"] = e[0], t
+            elif e[0] == "cancelled" and p.get("said_goaway") and p["fate_t"] == t:
+                pass                # told to go away and torn down in the same instant: the fate the peer sees is the GOAWAY
             elif e[0] == "delivered":
                 p["delivered_t"] = t
                 p["delivered"] = p.get("delivered", 0) + 1
@@ -1269,7 +1299,7 @@ def impl_view(obs: dict) -> dict:
     return {"per": per, "scopes": scopes, "ends": ends, "path_cid": path_cid,
             "outcome": obs["serve"]["outcome"], "classes": obs["serve"].get("classes", []), "return_s": obs["serve"].get("t"),
             "message": obs["serve"].get("message", ""),
-            "trigger_s": first_t(obs, "trigger"),
+            "trigger_s": first_t(obs, "trigger") if first_t(obs, "trigger") is not None else first_t(obs, "trigger_fired"),
             "ls": [(e[1], e[2], e[3]) for e in obs["events"] if e[2].startswith("ls_")],
             "received": [e[3]["type"] for e in obs["events"] if e[2] == "ls_recv"],
             "logs": [(e[1], e[3]["level"], e[3]["message"]) for e in obs["events"] if e[2] == "log"]}
